@@ -40,8 +40,12 @@ RULES = {
     "cloner, no statement after a `for` loop reads the loop's variable - `self._drop_sharding_for_value(output)` one indent level out "
     "runs for the last removed output only, and the annotations of the other removed outputs keep pointing at values that are no "
     "longer inputs or outputs of the node",
+    "R11": "a shape of rank 0 is a known shape (shared rule S12): in the annotation API of Node and Model, the device-annotation module and "
+    "the cloner's remapping, the presence of a Shape / Graph / Function (classes with __len__ and further state) is tested with `is None`, "
+    "never by truthiness - `len(shape) if shape else None` treats a scalar's shape () as unknown rank, so shard() accepts any axis for it "
+    "instead of rejecting the request, and the library's own checker then reports the stored spec",
 }
-FLOORS = {"R1": 12, "R2": 4, "R3": 4, "R4": 4, "R5": 4, "R6": 6, "R7": 2, "R8": 3, "R9": 2, "R10": 10}
+FLOORS = {"R1": 12, "R2": 4, "R3": 4, "R4": 4, "R5": 4, "R6": 6, "R7": 2, "R8": 3, "R9": 2, "R10": 10, "R11": 10}
 EXPLANATION = (
     "Structural checks on the record classes, on every writer of a node's input/output tuples, on the serializer's "
     "name derivation, the C06 write-before-reject analysis for the annotation API, and ordering (dominator) checks in "
@@ -388,8 +392,47 @@ def rule_r6(ctx):
     ctx.require(n >= 6, f"only {n} node sources found in the model-wide device-configuration sweeps")
 
 
+def _annotation_api(repo):
+    """Functions of the annotation API: methods of Node and Model in _core (printing excluded), the whole device-annotation module, and the
+    cloner's remapping of device configurations."""
+    out = []
+    for f in repo.module(CORE).all_funcs:
+        if isinstance(f.node, ast.Lambda) or f.owner_class is None or f.owner_class.name not in ("Node", "Model"):
+            continue
+        if f.name in ("__str__", "__repr__", "display", "_repr_base"):
+            continue
+        out.append(f)
+    out += [f for f in repo.module(MD).all_funcs if not isinstance(f.node, ast.Lambda)]
+    out += [f for f in repo.module("onnx_ir._cloner").all_funcs if not isinstance(f.node, ast.Lambda) and "device_configuration" in f.name]
+    return out
+
+
+def rule_r11(ctx):
+    from ..shared import sized_payload_truth_tests
+
+    n = 0
+    funcs = _annotation_api(ctx.repo)
+    for f in funcs:
+        f._s12_examined = 0
+        hits = sized_payload_truth_tests(ctx.repo, ctx.typer, f)
+        n += f._s12_examined
+        for node, t, src, cls in hits:
+            ctx.check("R11", f"{f.local}: presence of {norm(t)} ({src}) is tested with `is None`", False, f, node,
+                      f"`{norm(t)}` is tested by truthiness but it is declared `{src}`: {cls} - an instance without elements (the shape () of a "
+                      "scalar, a graph without nodes) is falsy although it is a known value; here a rank-0 shape is then handled as unknown rank, so an "
+                      "annotation request with an axis that is out of range for it is accepted instead of rejected",
+                      how="declared type of the tested expression (S10 source tracing) vs package classes defining __len__/__bool__ with further state",
+                      construct=f"truthiness of {src}")
+    for _ in range(n):
+        ctx.counts["R11"] = ctx.counts.get("R11", 0) + 1
+    ctx.ob("R11", f"{n} truthiness tests with a declared type examined in {len(funcs)} functions of the annotation API", True, nontrivial=False, how="S12")
+    ctx.require(n >= 10, f"only {n} typed truthiness tests found in the annotation API")
+
+
 def run(ctx):
     from ..shared import rule_s17
+
+    rule_r11(ctx)
 
     rule_s17(ctx, "R10", lambda f: (f.owner_class is not None and f.owner_class.name == "Node" and f.module.name == "onnx_ir._core") or f.module.name == "onnx_ir._cloner",
              "sharding annotations of the other values keep targeting values that left the node")
